@@ -174,6 +174,9 @@ func UpdateWebSocketHeader(secWebSocketKey, protocol string) []byte {
 	return []byte(webSocketResponseHeaderStr)
 }
 
+// wsMaxReadPayloadLength is the largest frame payload ReadWsPayload accepts
+const wsMaxReadPayloadLength = 16 << 20
+
 func ReadWsPayload(r *bufio.Reader) ([]byte, error) {
 	var h WsHeader
 
@@ -229,6 +232,11 @@ func ReadWsPayload(r *bufio.Reader) ([]byte, error) {
 		h.MaskKey = bele.BeUint32(buf)
 	}
 
+	// the length is chosen by the peer (up to 2^64-1): refuse what make() would panic on or what no
+	// signalling message needs
+	if h.PayloadLength > wsMaxReadPayloadLength {
+		return nil, fmt.Errorf("payload too large: %d", h.PayloadLength)
+	}
 	payload := make([]byte, h.PayloadLength)
 	_, err = io.ReadFull(r, payload)
 	if err != nil {
